@@ -7,6 +7,6 @@ cd $W
 /venv/bin/python $d/demo.py >/dev/null 2>&1; clean=$?
 git apply $d/patch.diff || { echo "$d APPLY-FAILED"; cd /; git -C /repo worktree remove --force $W; exit 3; }
 /venv/bin/python $d/demo.py >/dev/null 2>&1; patched=$?
-fails=$(/venv/bin/python -m pytest -q -p no:cacheprovider --timeout=900 --continue-on-collection-errors -q fiddle 2>&1 | tail -1)
+fails=$(/venv/bin/python -m pytest -q -p no:cacheprovider --timeout=900 --continue-on-collection-errors -q fiddle 2>&1 | grep '^FAILED\|^ERROR' | sort | tr '\n' ' ')
 cd /; git -C /repo worktree remove --force $W
 echo "$d clean_exit=$clean patched_exit=$patched suite='$fails'"
